@@ -243,7 +243,7 @@ char *igris_f32toa(float32_t f, char *buf, int8_t precision)
     char *p = ptr;
     char *p1;
     char c;
-    int32_t intPart;
+    uint32_t intPart[4] = {0, 0, 0, 0}; /* integer part, 32-bit limbs */
 
     if (isinf(f))
     {
@@ -292,10 +292,26 @@ char *igris_f32toa(float32_t f, char *buf, int8_t precision)
         f += (float32_t)rounders[precision];
 
     // integer part...
-    intPart = (int32_t)f;
-    f -= intPart;
+    if (f < 4294967296.0f)
+    {
+        intPart[0] = (uint32_t)f;
+        f -= (float32_t)intPart[0];
+    }
+    else
+    {
+        // at least 2^32: the value is an integer m * 2^sh with a 24-bit m
+        uint32_t bits, m;
+        int sh;
+        memcpy(&bits, &f, sizeof bits);
+        m = (bits & 0x7fffffu) | 0x800000u;
+        sh = (int)((bits >> 23) & 0xffu) - 150;
+        intPart[sh / 32] = m << (sh % 32);
+        if (sh % 32 && sh / 32 < 3)
+            intPart[sh / 32 + 1] = m >> (32 - sh % 32);
+        f = 0;
+    }
 
-    if (!intPart)
+    if (!(intPart[0] | intPart[1] | intPart[2] | intPart[3]))
         *ptr++ = '0';
     else
     {
@@ -303,10 +319,18 @@ char *igris_f32toa(float32_t f, char *buf, int8_t precision)
         p = ptr;
 
         // convert (reverse order)
-        while (intPart)
+        while (intPart[0] | intPart[1] | intPart[2] | intPart[3])
         {
-            *p++ = '0' + intPart % 10;
-            intPart /= 10;
+            // long division of the limbs by 10
+            uint32_t rem = 0;
+            int i;
+            for (i = 3; i >= 0; --i)
+            {
+                uint64_t cur = ((uint64_t)rem << 32) | intPart[i];
+                intPart[i] = (uint32_t)(cur / 10);
+                rem = (uint32_t)(cur % 10);
+            }
+            *p++ = '0' + (char)rem;
         }
 
         // save end pos
